@@ -84,6 +84,9 @@ func c17ops() []c17opT {
 	ops = append(ops, c17opT{"redeclare-E", `(struct E [(field big: bool e:0)])`, false},
 		c17opT{"e1-hset", `(hset e1 big: true)`, false}, c17opT{"e1-infix", `{e1.big = true}`, false},
 		c17opT{"e1-through-pointer", `(hset (* (& e1)) big: true)`, false})
+	// the field-less struct takes no member at all, whatever the kind of key
+	ops = append(ops, c17opT{"e1-hset-strkey", `(hset e1 "note" 5)`, false}, c17opT{"e1-hset-intkey", `(hset e1 7 "seven")`, false}, c17opT{"e1-infix-strkey", `{e1["other"] = 8}`, false},
+		c17opT{"e1-hset-undeclared", `(hset e1 note: 5)`, false}, c17opT{"e1-hset-charkey", `(hset e1 'c' 5)`, false})
 	ops = append(ops, c17opT{"give-O", `(hset c O: (T A: 3))`, true})
 	// an index expression (a live selector into an array) written as a field value, and later legal writes to that array
 	ops = append(ops, c17opT{"selector-value/hset", `(hset c X: (arrayidx arr [0]))`, false},
@@ -307,7 +310,7 @@ func init() {
 	engine.Register(&engine.Check{
 		ID:    "C17",
 		Level: "model_checking",
-		Rule: "explicit-state BFS over histories of writes to an instance of a declared struct S (fields int64, string, float64, bool, []string, *S, struct T): operations = 8 field names (7 declared + 1 undeclared) x 13 value kinds x 4 routes (hset, set with a dot path, infix dot assignment, construction) + non-symbol keys via hset and infix index, nested dot paths, writes through a pointer, derefSet, msgmap, decoding 7 hand-written JSON and msgpack texts, json/msgpack round trips, redeclaration of S with other field types; depth 2 (thorough 3); " +
+		Rule: "explicit-state BFS over histories of writes to an instance of a declared struct S (fields int64, string, float64, bool, []string, *S, struct T): operations = 8 field names (7 declared + 1 undeclared) x 13 value kinds x 4 routes (hset, set with a dot path, infix dot assignment, construction) + non-symbol keys via hset and infix index (also on an instance of a field-less struct), nested dot paths, writes through a pointer, derefSet, msgmap, decoding 7 hand-written JSON and msgpack texts, json/msgpack round trips, redeclaration of S with other field types; depth 2 (thorough 3); " +
 			"state key = definition versions + printed instance; invariant after every step: the instance has only declared fields (symbol keys, once each) and every non-nil value has the declared kind under the definition in force when the instance was created; a failed operation leaves the instance unchanged; nil/empty slice are accepted for slice and pointer fields",
 		Assumptions: []string{"only the safety direction is judged (what must never be stored); acceptance is judged only for the cases the property names"},
 		Run: func(c *engine.Ctx) {
